@@ -187,6 +187,12 @@ def instances(eao, tz):
         'Plant': lambda: eao.assets.Plant(name='pl', nodes=[n1, n3], price='p', min_cap=1., max_cap=3., min_runtime=2, start_costs=1., fuel_efficiency=0.5),
         'CHPAsset': lambda: eao.assets.CHPAsset(name='chp', nodes=[n1, n2, n3], price='p', min_cap=1., max_cap=3., min_runtime=2, start_costs=1., max_share_heat=0.5, fuel_efficiency=0.5),
         'ScaledAsset': lambda: eao.assets.ScaledAsset(name='sa', base_asset=eao.assets.Storage(name='b', nodes=n1, size=3., cap_in=1., cap_out=1.), max_scale=2., fix_costs=0.1),
+        'LinkedAsset': lambda: eao.portfolio.LinkedAsset(
+            eao.portfolio.Portfolio([eao.assets.CHPAsset(name='AUX', nodes=(n1, n2), price='p', min_cap=1., max_cap=1.),
+                                     eao.assets.CHPAsset(name='MAIN', nodes=(n1, n2), price='p', min_cap=0., max_cap=4.),
+                                     eao.assets.SimpleContract(name='feed', nodes=n3, price='p', min_cap=0., max_cap=1.),
+                                     eao.assets.Transport(name='pipe', nodes=[n3, n1], min_cap=0., max_cap=1.)]),
+            nodes=[n1, n2], asset1_variable=['MAIN', 'disp', n1], asset2_variable=['AUX', 'bool_on', None], time_back=1, time_forward=2, name='linked'),
         'ScaledAsset_window': lambda: eao.assets.ScaledAsset(name='sw', base_asset=eao.assets.SimpleContract(name='b', nodes=n1, price='p', min_cap=-1., max_cap=1.),
                                                               max_scale=2., fix_costs=0.3, start=mk(6), end=mk(30)),
     }
@@ -266,7 +272,7 @@ def c11(prop, tier, seed):
     import random
     rng = random.Random(seed)
     zones = [None, 'CET', 'UTC', 'Europe/London']
-    klasses = ['SimpleContract', 'Contract', 'Storage', 'Transport', 'ExtendedTransport', 'MultiCommodityContract', 'OrderBook', 'Plant', 'CHPAsset', 'ScaledAsset', 'ScaledAsset_window']
+    klasses = ['SimpleContract', 'Contract', 'Storage', 'Transport', 'ExtendedTransport', 'MultiCommodityContract', 'OrderBook', 'Plant', 'CHPAsset', 'ScaledAsset', 'ScaledAsset_window', 'LinkedAsset']
     cases = [dict(klass=k, tz=tz, after_setup=af) for k in klasses for tz in zones for af in (False, True)]
     rng.shuffle(cases)
     n = 80 if tier == 'thorough' else 28
@@ -279,6 +285,6 @@ def c11(prop, tier, seed):
             first.append(c)
     rest = [c for c in cases if c not in first]
     b1 = run_cases(check_roundtrip, (first + rest)[:n], 'one instance per asset class x zone (naive, CET, UTC, Europe/London) x fresh / after one set-up: save, load, save again, identical problem',
-                   '10 asset classes (ScaledAsset also with its own window), 4 zones, 48 h grids', 60 if tier == 'quick' else 400)
+                   '11 asset classes (ScaledAsset also with its own window; LinkedAsset with an internal node), 4 zones, 48 h grids', 60 if tier == 'quick' else 400)
     b2 = run_cases(check_codec, [dict(tz=z) for z in zones], 'timestamp / ndarray codecs and the portfolio grid for four zones incl. UTC offset 0 and DST edges', '4 zones', 20)
     return dict(obligations=obs, bounded=_merge(b1, b2))
